@@ -52,7 +52,7 @@ def run(a, res):
         resp = Resp(c["status"], hdrs, length=c["len"], framing=c["framing"], chunks=c["chunks"], chunk_ext=c["chunk_ext"], delay=c["delay"])
         wire = resp.serialize(head_only=(req.method == "HEAD"))
         head_len = wire.find(b"\r\n\r\n") + 4
-        if c["nsplits"]:
+        if c["nsplits"] or (c["framing"] == "chunked" and c["len"] >= 16 and c["split_seed"] % 3 == 0):
             pts = set()
             for _ in range(c["nsplits"]):
                 # favour interesting places: inside status line, header block, CRLF pairs, chunk-size lines
@@ -64,6 +64,13 @@ def run(a, res):
                     pts.add(r.choice(idxs) + 1)
                 else:
                     pts.add(r.randrange(1, max(2, len(wire))))
+            if c["framing"] == "chunked" and r.random() < 0.6:
+                # a read boundary INSIDE a multi-digit chunk-size token (between two hex digits)
+                import re as _re
+                toks = [m for m in _re.finditer(rb"\r\n([0-9a-fA-F]{2,8})(?=[;\r])", wire[head_len - 2:head_len + 300000])]
+                for m in r.sample(toks, min(len(toks), 2)):
+                    pts.add(head_len - 2 + m.start(1) + r.randrange(1, len(m.group(1))))
+                    resp.delay = max(resp.delay, 0.003)  # make sure squid reads the two halves separately
             resp.splits = sorted(pts)
         if c["abort"] and req.method != "HEAD":
             resp.abort_at = max(1, int(len(wire) * c["abort_frac"]))
